@@ -52,3 +52,24 @@ Definition wire_match (obs_headers obs_query : obs_map) (q : request) : bool :=
 Definition preset_request (hs qs : list (bytes * bytes)) (q : request) : request :=
   fold_left (fun acc kv => set_query (fst kv) [snd kv] acc) qs
             (fold_left (fun acc kv => set_header (fst kv) (snd kv) acc) hs q).
+
+(* ---------- a credential is taken from its declared location only ---------- *)
+(* the request reduced to the place(s) the authenticator is declared to read: everything else the request carries - other
+   headers (cookies among them), other query parameters, the form body for every kind but bearer - is erased *)
+Definition keep_key {V : Type} (k : bytes) (l : list (bytes * V)) : list (bytes * V) :=
+  filter (fun kv => bytes_eqb k (fst kv)) l.
+Definition declared_part (k : cred_kind) (name : bytes) (q : request) : request :=
+  match k with
+  | KBasic => mkReq (keep_key s_authorization (r_headers q)) [] false []
+  | KKeyHeader => mkReq (keep_key (lower name) (r_headers q)) [] false []
+  | KKeyQuery => mkReq [] (keep_key name (r_query q)) false []
+  | KBearer => mkReq (keep_key s_authorization (r_headers q)) (keep_key s_access_token (r_query q)) (r_form_ct q)
+                     (keep_key s_access_token (r_form q))
+  end.
+Definition cred_eqb (a b : bytes * bytes) : bool := bytes_eqb (fst a) (fst b) && bytes_eqb (snd a) (snd b).
+Definition has_cred {A} (o : option A) : bool := match o with Some _ => true | None => false end.
+(* on an observation of the real authenticator (applies, what the callback received): the scheme applies exactly when the
+   declared location carries a credential, and the callback receives that credential - whatever the same name or the same
+   token is doing in the other places of the request *)
+Definition from_declared_location (k : cred_kind) (name : bytes) (q : request) (applies : bool) (got : option (bytes * bytes)) : bool :=
+  Bool.eqb applies (has_cred got) && opt_eqb cred_eqb got (read_cred k name (declared_part k name q)).
